@@ -48,9 +48,6 @@ M = [
  ("m-c18-input-len", P, "    if *expected_inputs != inputs.len() {", "    if *expected_inputs > inputs.len() {", ["C18"], "too many input bits accepted"),
  ("m-c08-unwrap-opt", P, "                    let Some((other_share, mac)) =\n                        other_shares.get(inst.out.0 as usize).copied().flatten()\n                    else {\n                        return Err(MpcError::InvalidInputMacForInst(w).into());\n                    };", "                    let (other_share, mac) = other_shares[inst.out.0 as usize].unwrap();", ["C08"], "unwrap on a received option"),
  ("m-c12-pipelined-toss", F, "    let commitments = broadcast(channel, i, n, \"RNG comm\", &comm).await?;\n\n    // Step 3) Send and receive decommitments concurrently for multi-party cointossing.\n    let bufs_vec = unverified_broadcast(channel, i, n, \"RNG ver\", &buf).await?;", "    // pipelined: send both messages first, then collect both answers\n    for p in (0..n).filter(|p| *p != i) {\n        send_to(channel, p, \"RNG comm\", &comm).await?;\n    }\n    for p in (0..n).filter(|p| *p != i) {\n        send_to(channel, p, \"RNG ver\", &buf).await?;\n    }\n    let mut commitments = vec![vec![]; n];\n    let mut bufs_vec = vec![vec![]; n];\n    for p in (0..n).filter(|p| *p != i) {\n        commitments[p] = recv_vec_from(channel, p, \"RNG comm\", 1).await?;\n    }\n    for p in (0..n).filter(|p| *p != i) {\n        bufs_vec[p] = recv_vec_from(channel, p, \"RNG ver\", 32).await?;\n    }", ["C12", "C04"], "multi-party coin toss sends commitment and opening back to back before receiving (deadlock on 1-slot links; reveal before commitments)"),
- ("m-c04-kos-toss-early-s", K, "        let qs = self.ot.send_setup(channel, ncols, p_to).await?;\n        // The coefficients are tossed only now that the receiver's matrix has arrived.\n        let mut check_rand = toss_check_rng(channel, p_to, true, shared_rand).await?;", "        let mut check_rand = toss_check_rng(channel, p_to, true, shared_rand).await?;\n        let qs = self.ot.send_setup(channel, ncols, p_to).await?;", [], "half of m-c04-kos-toss-early (sender side); applied together with the receiver side"),
- ("m-c04-abit-toss-early", F, "    let mut x: Vec<bool> = (0..lprime).map(|_| random()).collect();\n", "    let mut x: Vec<bool> = (0..lprime).map(|_| random()).collect();\n    let mut fresh_rand = shared_rng(channel, i, n).await?;\n", ["C04"], "the fresh toss for the aBit test strings is made before the OTs (second anchor removes the late toss)"),
- ("m-c04-bucket-toss-early", F, "    // Step 1) Generate all leaky AND triples by calling flaand l' times.\n    let zshares = flaand((channel, delta), (xshares, yshares, rshares), i, n, lprime).await?;", "    let mut fresh_rand = shared_rng(channel, i, n).await?;\n    // Step 1) Generate all leaky AND triples by calling flaand l' times.\n    let zshares = flaand((channel, delta), (xshares, yshares, rshares), i, n, lprime).await?;", ["C04"], "the fresh toss for the bucket assignment is made before the leaky ANDs (second anchor removes the late toss)"),
  ("m-c07-open-d1", F, "        di_bi[r] = if bi[r] { d1[r] } else { d0[r] };", "        di_bi[r] = if !bi[r] { d1[r] } else { d0[r] };", ["C07", "C01"], "aShare opens the wrong one of d0 / d1 (honest runs then fail)"),
 ]
 
